@@ -190,6 +190,24 @@ def build_mesh(c):
         mesh = BoutMesh(eq, opts)
         mesh.geometry()
         return eq, mesh
+    if c["kind"] == "torpex":
+        # the shipped isolated-X-point example (magnetic field of four coils; needs sympy, which the
+        # check's own venv provides), smaller sizes for speed
+        import copy
+
+        from hypnotoad.cases import torpex
+        from hypnotoad.core.mesh import BoutMesh
+
+        eqo, mo = torpex.parseInput(os.path.join(REPO, "examples", "torpex-xpoint", c.get("yaml", "torpex-coils.yaml")))
+        mo = dict(copy.deepcopy(mo))
+        mo.update(c["options"])
+        mo.setdefault("refine_timeout", 120.0)
+        eq = torpex.TORPEXMagneticField(eqo, mo)
+        mo.update(eq.user_options)
+        eq.makeRegions()
+        mesh = BoutMesh(eq, settings=mo)
+        mesh.geometry()
+        return eq, mesh
     raise ValueError(c["kind"])
 
 
@@ -272,6 +290,8 @@ def generate(c, use_cache=True):
         res = dict(ok=False, error="%s: %s" % (type(e).__name__, e), tb=traceback.format_exc()[-3000:], wall_s=time.time() - t0, cfg=c)
     finally:
         sys.stdout, sys.stderr = so, se
+    if not res["ok"] and res["error"].startswith(("ModuleNotFoundError", "ImportError", "MemoryError")):
+        return res  # environmental: says nothing about the tree, never cached
     tmp = path + ".%d.tmp" % os.getpid()
     with open(tmp, "wb") as f:
         pickle.dump(res, f)
